@@ -680,7 +680,7 @@ class World:
                 elif mode == "compact":
                     txt = json.dumps(obj, separators=(",", ":"), ensure_ascii=False)
             t.data["text"] = txt
-            self.coherent(op["src"], {"C15", "C09"}, "serialize", what="source")
+            self.coherent(op["src"], {"C09"}, "serialize", what="source")
         self.slots[dst] = t
 
     def op_deserialize(self, op):
